@@ -63,7 +63,7 @@ class M(object):
         return s.val
 
     async def __aexit__(s, *a):
-        pass
+        await trap()
 
 
 TARGETS = [  # (target text, value expr, supported: True must render / False,None may drop)
@@ -76,6 +76,7 @@ TARGETS = [  # (target text, value expr, supported: True must render / False,Non
     ("lst[0:1]", "[1]", None), ("lst[cv:]", "[1]", None),
     ("d[k + 'x']", "1", False), ("f(a=1).x", "1", False), ("d[(w := 'k')]", "1", False), ("lst[0:2:1]", "[1, 2]", None),
     ("d[1, 2]", "1", None), ("d[ns.kk]", "1", None), ("d[lst[0]]", "1", None), ("(a, ns.x, *d['k'])", "(1, 2, 3)", True),
+    ("", "1", None),  # no `as` clause at all
 ]
 LAYOUTS = ["one", "multi", "paren"]
 
@@ -112,22 +113,25 @@ def norm_node(t):
 
 def build(kind, layout, items):
     kw = "async with" if kind == "a" else "with"
-    lines = ["async def prog(ns, d, lst, k, f):", "    global g", "    cv = None", "    def clo(): return cv"]
+    lines = ["async def prog(ns, d, lst, k, f):", "    global g", "    cv = None", "    def clo(): return cv", "    nothing = None"]
+
+    def item(v, t):
+        return "M(%s) as %s" % (v, t) if t else "M(%s)" % v
     if layout == "one":
-        lines.append("    %s " % kw + ", ".join("M(%s) as %s" % (v, t) for t, v in items) + ":")
+        lines.append("    %s " % kw + ", ".join(item(v, t) for t, v in items) + ":")
         wl = [len(lines)] * len(items)
     elif layout == "multi":
         first = len(lines) + 1
         lines.append("    %s M(" % kw)
         for i, (t, v) in enumerate(items):
             lines.append("        %s" % v)
-            lines.append("    ) as %s" % t + (", M(" if i + 1 < len(items) else ":"))
+            lines.append(("    ) as %s" % t if t else "    )") + (", M(" if i + 1 < len(items) else ":"))
         wl = [first] * len(items)
     else:
         first = len(lines) + 1
         lines.append("    %s (" % kw)
         for t, v in items:
-            lines.append("        M(%s) as %s," % (v, t))
+            lines.append("        %s," % item(v, t))
         lines.append("    ):")
         wl = [first] * len(items)
     lines.append("        await trap()")
@@ -179,14 +183,46 @@ def check_dyn(case):
         warnings.simplefilter("always")
         ctxs = lowlevel.contexts_active_in_frame(co.cr_frame, co)
     localnames = dict(co.cr_frame.f_locals)
-    co.close()
     problems = []
+    judge_contexts(ctxs, w, items, combo, wl, localnames, problems, "body")
+    nctx = len(ctxs)
+    # second observation (async with only): suspended inside the last item's __aexit__, i.e. that context is exiting
+    if case["kind"] == "a" and not problems:
+        try:
+            co.send(None)
+            inner = co.cr_await
+            nxt = getattr(inner, "cr_frame", None)
+            with warnings.catch_warnings(record=True) as w2:
+                warnings.simplefilter("always")
+                ctxs2 = lowlevel.contexts_active_in_frame(co.cr_frame, co, nxt)
+            localnames = dict(co.cr_frame.f_locals)
+            if not ctxs2 or not ctxs2[-1].is_exiting:
+                problems.append("exiting: last context is not marked exiting: %r" % (ctxs2,))
+            judge_contexts(ctxs2, w2, items, combo, wl, localnames, problems, "exiting")
+            nctx += len(ctxs2)
+        except StopIteration:
+            pass
+    try:
+        while True:
+            co.send(None)
+    except BaseException:
+        pass
+    return "run", problems, nctx
+
+
+def judge_contexts(ctxs, w, items, combo, wl, localnames, problems, tag):
     if w:
-        problems.append("warning: %s" % str(w[0].message)[:160])
+        problems.append("%s: warning: %s" % (tag, str(w[0].message)[:160]))
     if len(ctxs) != len(items):
-        problems.append("count: %d contexts for %d items" % (len(ctxs), len(items)))
-        return "run", problems, len(ctxs)
+        problems.append("%s: count: %d contexts for %d items" % (tag, len(ctxs), len(items)))
+        return
     for c, (t, v, sup), line in zip(ctxs, combo, wl):
+        if not t:
+            if c.start_line != line:
+                problems.append("%s: start_line %r != with line %r (no target)" % (tag, c.start_line, line))
+            if c.varname is not None and not (c.varname in localnames and localnames[c.varname] is c.obj and c.obj is not None):
+                problems.append("%s: varname %r for an item without `as` (not a local bound to the manager)" % (tag, c.varname))
+            continue
         if c.start_line != line:
             problems.append("start_line %r != with line %r (target %s)" % (c.start_line, line, t))
         if c.varname is None:
@@ -199,9 +235,8 @@ def check_dyn(case):
                 okv = False
             if not okv:
                 # only acceptable if target not reconstructible and varname is a local bound to the manager
-                if not (sup is not True and c.varname in localnames and localnames[c.varname] is c.obj):
-                    problems.append("varname %r for target %r" % (c.varname, t))
-    return "run", problems, len(ctxs)
+                if not (sup is not True and c.varname in localnames and localnames[c.varname] is c.obj and c.obj is not None):
+                    problems.append("%s: varname %r for target %r" % (tag, c.varname, t))
 
 
 # ------------------------------------------------------------------ static leg
